@@ -54,6 +54,14 @@ var defaultDialer = net.Dialer{Timeout: 30 * time.Second}
 // This function returns a plaintext connection. To enable TLS, use
 // DialStartTLS.
 func Dial(addr string) (*Client, error) {
+	if conn, err, ok := verifDial("tcp", addr); ok {
+		if err != nil {
+			return nil, err
+		}
+		client := NewClient(conn)
+		client.serverName, _, _ = net.SplitHostPort(addr)
+		return client, nil
+	}
 	conn, err := defaultDialer.Dial("tcp", addr)
 	if err != nil {
 		return nil, err
@@ -68,6 +76,26 @@ func Dial(addr string) (*Client, error) {
 //
 // A nil tlsConfig is equivalent to a zero tls.Config.
 func DialTLS(addr string, tlsConfig *tls.Config) (*Client, error) {
+	if conn, err, ok := verifDial("tcp", addr); ok {
+		if err != nil {
+			return nil, err
+		}
+		if tlsConfig == nil {
+			tlsConfig = &tls.Config{}
+		}
+		if tlsConfig.ServerName == "" {
+			tlsConfig = tlsConfig.Clone()
+			tlsConfig.ServerName, _, _ = net.SplitHostPort(addr)
+		}
+		tlsConn := tls.Client(conn, tlsConfig)
+		if err := tlsConn.Handshake(); err != nil {
+			conn.Close()
+			return nil, err
+		}
+		client := NewClient(tlsConn)
+		client.serverName, _, _ = net.SplitHostPort(addr)
+		return client, nil
+	}
 	tlsDialer := tls.Dialer{
 		NetDialer: &defaultDialer,
 		Config:    tlsConfig,
